@@ -405,7 +405,7 @@ func TestC03(t *testing.T) {
 	run.SetRule("case = pair or triple of descriptors (real Desc.Merge / PartitionRingDesc.Merge with localCAS=false on deep clones) checked for idempotence, commutativity, associativity, sufficiency of the reported change (into the pre-merge state and into a superset replica), nil-change => unchanged content, and the per-entry newer-wins / removal-wins-on-tie rule; plus update sets delivered to 3-5 replicas in shuffled order, regrouped and duplicated. non-trivial = the operands share at least one entry id; distinct by canonical content of the operands. Universe: per entry {absent, ts in 1..3 x {present, removed}} over 3 instance ids (343 descriptors), 2 partitions x 13 register states and 1 partition x 2 owners; contents fixed per world by a content function (entry,timestamp)->content.")
 	run.Assume("each (entry, timestamp, removed?) denotes one content; token sets of different instances are disjoint (collisions are C05)")
 
-	nWorlds := vt.N(3, 40)
+	nWorlds := vt.N(3, 12)
 	// exhaustive pairs per world
 	for wi := 0; wi < nWorlds; wi++ {
 		wi := wi
@@ -517,10 +517,10 @@ func TestC03(t *testing.T) {
 	}
 
 	// random larger descriptors: update sets delivered in any order / grouping / multiplicity
-	run.ForEach("delivery-inst", vt.N(3000, 100000), func(c vt.CaseID, rng *rand.Rand, s *vt.Slot) {
+	run.ForEach("delivery-inst", vt.N(3000, 40000), func(c vt.CaseID, rng *rand.Rand, s *vt.Slot) {
 		deliveryInst(run, c, rng)
 	})
-	run.ForEach("delivery-part", vt.N(3000, 100000), func(c vt.CaseID, rng *rand.Rand, s *vt.Slot) {
+	run.ForEach("delivery-part", vt.N(3000, 40000), func(c vt.CaseID, rng *rand.Rand, s *vt.Slot) {
 		deliveryPart(run, c, rng)
 	})
 	run.Finish(t)
